@@ -3,6 +3,7 @@ import Treepath.Proofs.Work
 import Treepath.Spec.Eval
 import Treepath.Generated.Budget
 import Treepath.Proofs.MachineLemmas
+import Treepath.Proofs.Budget
 /- C20 — traversal halts, doing work proportional to the search space -/
 namespace Treepath.C20
 
@@ -96,5 +97,43 @@ theorem budget_exhausted_signals {α} (view : α → View α) (steps : Array (St
     (next view steps src 0 st).2.2 = .raised .loopDetected := rfl
 
 theorem budget_value : Generated.loopBudget = 1000000 := by decide
+
+/-- **pacing**: a `next()` that ends in `InfiniteLoopDetected` has performed `limit` actions
+of which at least `(limit - 3) / 3` were match attempts — the counter only runs out while the
+search keeps attempting matches (generic in the document type: trees, object stores, cyclic
+graphs) -/
+theorem loop_detected_means_work {α} (view : α → View α) (steps : Array (Step α)) (src : Src α)
+    (hq : ∀ st s1 e1 e, action view steps src st ≠ (s1, e1, .raised e))
+    (limit : Nat) (st : St α) (as : AS α) (hR : R steps st as) (st' : St α) (evs : List (Ev α))
+    (h : next view steps src limit st = (st', evs, .raised .loopDetected)) :
+    ∃ E, evs = E ++ [.raised .loopDetected] ∧ limit ≤ 3 + 3 * attemptsTop E := by
+  obtain ⟨E, h1, _, h3⟩ := next_loop_pace view steps src hq limit st as hR st' evs h
+  have := as.pot_le
+  exact ⟨E, h1, by omega⟩
+
+/-- **on a finite tree the budget is never the reason a search fails**: with the real budget
+(generated from the source), if `6 · exams + 3` is below it, no `next()` call of the whole
+iteration raises `InfiniteLoopDetected` -/
+theorem budget_not_hit_on_trees (steps : Array (Step J)) (src : Src J) (hq : Quiet steps.toList)
+    (hp : PredsClean steps) (hs : PredsStamped steps.toList)
+    (hb : 6 * exams steps.toList src.rootNode + 3 < Generated.loopBudget)
+    (st' st'' : St J) (rs : List (MNode J)) (E evs : List (Ev J))
+    (hy : Yields J.view steps src Generated.loopBudget freshIter rs E st') :
+    next J.view steps src Generated.loopBudget st' ≠ (st'', evs, .raised .loopDetected) := by
+  have hwork := work_bound steps.toList hs 0 src.rootNode
+  exact no_loop_under_budget steps src hq hp _ (by omega) st' st'' rs E evs hy
+
+/-- … so the whole iteration, as `list(find_matches(...))` sees it, is the definition's
+answer: terminates, no error, nothing missing, nothing twice -/
+theorem drain_is_definition (steps : Array (Step J)) (src : Src J) (hq : Quiet steps.toList)
+    (hp : PredsClean steps) (hs : PredsStamped steps.toList)
+    (hb : 6 * exams steps.toList src.rootNode + 3 < Generated.loopBudget) (fuel : Nat)
+    (hf : (eval steps.toList src.rootNode).length < fuel) :
+    drain ({ view := J.view, toJ := id } : Ctx J) steps src fuel freshIter = (eval steps.toList src.rootNode, none) :=
+  drain_is_eval steps src { view := J.view, toJ := id } rfl hq hp hs hb fuel freshIter [] [] _ (.nil _) (by simp) hf
+
+/-- non-vacuity of the budget premise: a three-element document under `$[*]` -/
+example : 6 * exams [Step.idxWc] (.root (.arr [.int 1, .int 2, .int 3])) + 3 < Generated.loopBudget := by decide
+
 
 end Treepath.C20
